@@ -507,10 +507,78 @@ func userPropsOf(p mq.Packet) mq.UserProperties {
 	return u
 }
 
+// c12LongSetters: a long history of PLAIN setter calls - thousands of short
+// values set on one field of a packet (and on other packets of the process)
+// while its other fields, set once at the start, are left alone. Storage the
+// library recycles after N sets must not still belong to a live field.
+func c12LongSetters(c *sim.Ctx) *sim.Violation {
+	t := c.T
+	n := 3000 + t.Int(2000)
+	if c.Thorough {
+		n = 70000 + t.Int(5000)
+	}
+	p := mq.NewPublish()
+	p.SetContentType("text/plain")
+	p.SetResponseTopic("reply/to")
+	p.SetCorrelationData([]byte("corr-1"))
+	p.AddUserProp("first", "kept")
+	cn := mq.NewConnect()
+	cn.SetClientID("client-1")
+	cn.SetUsername("user-1")
+	cn.SetAuthMethod("SCRAM")
+	other := mq.NewPublish()
+	check := func(i int) *sim.Violation {
+		got := fmt.Sprintf("%q %q %q %v | %q %q %q", p.ContentType(), p.ResponseTopic(), p.CorrelationData(), userPropsOf(p), cn.ClientID(), cn.Username(), cn.AuthMethod())
+		want := fmt.Sprintf("%q %q %q %v | %q %q %q", "text/plain", "reply/to", []byte("corr-1"), mq.UserProperties{{"first", "kept"}}, "client-1", "user-1", "SCRAM")
+		if got != want {
+			return sim.V("C12/PUBLISH/long-setter-history/field-not-named-by-a-call-changed", "after %d further setter calls with short values (SetTopicName on this packet, SetTopicName/SetContentType on another) the fields set once at the start read %s, want %s", i, got, want)
+		}
+		if tn := p.TopicName(); i > 0 && tn != fmt.Sprintf("sensor/%d", i-1) {
+			return sim.V("C12/PUBLISH/long-setter-history/TopicName", "after %d SetTopicName calls TopicName() is %q", i, tn)
+		}
+		return nil
+	}
+	for i := 0; i < n; i++ {
+		p.SetTopicName(fmt.Sprintf("sensor/%d", i))
+		if i%3 == 0 {
+			other.SetTopicName(fmt.Sprintf("o/%d", i))
+			other.SetContentType(fmt.Sprintf("x/%d", i))
+		}
+		if i%7 == 0 {
+			q := mq.NewPublish() // short-lived packets come and go
+			q.SetTopicName(fmt.Sprintf("q/%d", i))
+			q.SetResponseTopic("r")
+		}
+		if i%101 == 0 || i == n-1 {
+			if v := check(i + 1); v != nil {
+				return v
+			}
+		}
+	}
+	b, err, pi := encodeReal(p)
+	if err != nil || pi != nil {
+		return sim.V("C12/PUBLISH/long-setter-history/encode", "err=%v panic=%v", err, pi)
+	}
+	a, derr := ref.Decode(b, false)
+	if derr != nil || string(a.Topic) != fmt.Sprintf("sensor/%d", n-1) {
+		return sim.V("C12/PUBLISH/long-setter-history/frame", "frame %s: %v", hexs(b), derr)
+	}
+	for _, pr := range a.Props {
+		if (pr.ID == 0x03 && string(pr.B) != "text/plain") || (pr.ID == 0x08 && string(pr.B) != "reply/to") || (pr.ID == 0x09 && string(pr.B) != "corr-1") {
+			return sim.V("C12/PUBLISH/long-setter-history/frame", "after %d setter calls the frame carries property %#x = %q", n, pr.ID, pr.B)
+		}
+	}
+	c.Count("probe.long-history-of-short-plain-setter-calls")
+	return nil
+}
+
 func runC12(c *sim.Ctx) *sim.Violation {
 	t := c.T
 	if c.Run == 21 {
 		return c12Long(c)
+	}
+	if c.Run == 22 {
+		return c12LongSetters(c)
 	}
 	g := gen.NewG(t, c.Thorough, 2) // up to two boundary-size arguments (16383..65535 bytes) per history
 	typ := c12Types[t.Int(len(c12Types))]
